@@ -13,6 +13,7 @@
 import json, os, re, shutil, subprocess, sys, time
 
 ROOT = os.path.dirname(os.path.dirname(os.path.abspath(__file__)))
+SUFFIX = ""   # "-r2" for the second round of seeded changes: stored under seeded/<id>-r2
 ENV = dict(os.environ, GOFLAGS="-mod=mod", GOPROXY="off", GOSUMDB="off", GOTOOLCHAIN="local")
 
 
@@ -22,7 +23,7 @@ def sh(cmd, cwd=None, timeout=3600):
 
 
 def do_import(pid):
-    src, dst = "/tmp/seedout/" + pid, os.path.join(ROOT, "seeded", pid)
+    src, dst = "/tmp/seedout/" + pid, os.path.join(ROOT, "seeded", pid + SUFFIX)
     os.makedirs(dst, exist_ok=True)
     shutil.copy(os.path.join(src, "patch.diff"), dst)
     shutil.copy(os.path.join(src, "meta.json"), dst)
@@ -37,14 +38,14 @@ def do_import(pid):
 
 
 def demo_files(pid):
-    d = os.path.join(ROOT, "seeded", pid, "demo")
+    d = os.path.join(ROOT, "seeded", pid + SUFFIX, "demo")
     return [f for f in os.listdir(d) if f.endswith("_test.go")]
 
 
 def do_confirm(pid):
     """run the agent's demonstration myself, patched and unpatched, in the scratch worktree"""
     wt = "/tmp/seedwt_" + pid
-    dst = os.path.join(ROOT, "seeded", pid)
+    dst = os.path.join(ROOT, "seeded", pid + SUFFIX)
     meta = json.load(open(os.path.join(dst, "meta.json")))
     patch = os.path.join(dst, "patch.diff")
     files = demo_files(pid)
@@ -87,12 +88,12 @@ def do_confirm(pid):
 def do_run(spec, tier="quick"):
     pid, _, extra = spec.partition(":")
     props = [pid] + [x for x in extra.split(",") if x]
-    dst = os.path.join(ROOT, "seeded", pid)
+    dst = os.path.join(ROOT, "seeded", pid + SUFFIX)
     patch = os.path.join(dst, "patch.diff")
     rc, out = sh(["git", "-C", "/repo", "status", "--porcelain"])
     if out.strip():
         raise RuntimeError("/repo is not clean: " + out)
-    result = {"patch": "seeded/%s/patch.diff" % pid, "tier": tier, "checks": {}}
+    result = {"patch": "seeded/%s/patch.diff" % (pid + SUFFIX), "tier": tier, "checks": {}}
     # the evidence files under /verif/evidence must describe runs on the unchanged tree: keep them aside
     ev, bak = os.path.join(ROOT, "evidence"), os.path.join(ROOT, ".work", "evidence_backup")
     if os.path.isdir(bak):
@@ -131,6 +132,10 @@ def do_run(spec, tier="quick"):
 if __name__ == "__main__":
     cmd, args = sys.argv[1], sys.argv[2:]
     tier = "quick"
+    for a in list(args):
+        if a.startswith("--round="):
+            args.remove(a)
+            SUFFIX = "-r" + a.split("=")[1]
     if "--thorough" in args:
         args.remove("--thorough")
         tier = "thorough"
